@@ -40,6 +40,9 @@ MIX = {  # kind -> (quick, thorough)
     "symjump": (20, 800),
     "calltree": (24, 1500),
     "creates": (12, 600),
+    "symjump-revisit": (12, 400),
+    "dealt-value-calls": (16, 500),
+    "jump0": (8, 300),
 }
 UNKNOWN_PS = [0.0, 0.0, 0.1, 0.5, 1.0]
 TIMEOUTS = [0.001, 0.001, 0.001, 0.001, 0, 0.3]
@@ -96,6 +99,44 @@ def make_case(kind, rng):
         assert len(head_code) == head_len
         code = head_code + body + final
         return diffcore.Case({0x1000: code}, overrides={"symbolic_jump": True}, label=kind, gen_features=sorted(g.features | {"symbolic-jump-table"}))
+    if kind == "symjump-revisit":
+        # the same symbolic JUMP (same pc, same destination term) is reached on several paths whose constraints exclude different targets
+        # x is loaded once and kept on the stack (a reloaded word would be concretised by the equality learnt on the path)
+        toks = [4, "CALLDATALOAD"]
+        for k in range(2):
+            if rng.random() < 0.5:
+                toks += ["DUP1", f"@pad{k}", "EQ", f"@n{k}", "JUMPI", f":n{k}"]  # plain two-sided branch, both sides continue at the same place
+            else:
+                toks += ["DUP1", f"@pad{k}", "EQ", "ISZERO", f"@n{k}", "JUMPI", 0x10 + k, 0x200 + 32 * k, "MSTORE", f":n{k}"]
+        toks += ["JUMP"]
+        for k in range(3):
+            toks += [f":pad{k}", 0x70 + k, 0x260, "MSTORE", 0x80, 0x200, "RETURN"]
+        code = asm(toks)
+        case = diffcore.Case({0x1000: code}, ncd=1, overrides={"symbolic_jump": True}, label=kind, gen_features=["symbolic-jump-revisited"])
+        # the inputs that jump to each landing pad (and one that jumps nowhere valid)
+        case.extra_cd = [[i] for i, b in enumerate(code) if b == 0x5B] + [[1]]
+        return case
+    if kind == "dealt-value-calls":
+        # the sender's balance is made concrete (vm.deal), then value calls are made until one is definitely unaffordable: the call fails,
+        # pushes 0 and execution continues
+        import foundry
+        from artifacts import call_cheat
+
+        have = rng.choice([0, 2, 5])
+        vals = [rng.choice([3, 3, 7, 1]) for _ in range(rng.randrange(1, 4))]
+        toks = call_cheat(foundry.HEVM, "deal(address,uint256)", [[("push", 0x1000, 20)], [have]]) + ["POP"]
+        if rng.random() < 0.5:
+            toks += [4, "CALLDATALOAD", "ISZERO", "@skip", "JUMPI"]
+        for k, v in enumerate(vals):
+            op = rng.choice(["CALL", "CALL", "CREATE"])
+            if op == "CALL":
+                toks += [0, 0, 0, 0, v, 0xBEEF, 0xFFFF, "CALL", 0x200 + 32 * k, "MSTORE"]
+            else:
+                toks += [0, 0, v, "CREATE", "ISZERO", "ISZERO", 0x200 + 32 * k, "MSTORE"]
+        toks += [":skip", "SELFBALANCE", 0x200 + 32 * len(vals), "MSTORE", 32 * (len(vals) + 1), 0x200, "RETURN"]
+        case = diffcore.Case({0x1000: asm(toks)}, ncd=1, label=kind, gen_features=["definite-insufficient-funds"], bal_addrs=[0x1000, 0xBEEF, 0x2000])
+        case.foundry = True
+        return case
     if kind == "calltree":
         return calltree.make_tree_case(rng)
     if kind == "single-loop3":
@@ -237,8 +278,14 @@ def worker(task):
         res["features"]["workload:" + kind] += 1
         for f in case.gen_features:
             res["features"]["gen:" + f] += 1
+        extra = []
+        for cdv in getattr(case, "extra_cd", []):
+            xi = diffcore.random_input(case, rng)
+            xi.cd = list(cdv) + list(xi.cd[len(cdv):])
+            xi.source = "planted"
+            extra.append(xi)
         r = diffcore.diff_case(case, rng, res, n_random=5, n_models=2, unknown_p=p, record_checks=True, record_appends=True,
-                               judge_c01=False, judge_c02=True)
+                               judge_c01=False, judge_c02=True, extra_inputs=extra)
         if r is None:
             continue
         if p > 0:
